@@ -10,7 +10,7 @@ use std::panic::{catch_unwind, AssertUnwindSafe};
 
 pub type Files = Vec<(String, String)>;
 
-fn files_json(files: &Files) -> Json {
+pub fn files_json(files: &Files) -> Json {
     Json::Arr(
         files
             .iter()
@@ -19,7 +19,7 @@ fn files_json(files: &Files) -> Json {
     )
 }
 
-fn panic_msg(e: Box<dyn std::any::Any + Send>) -> String {
+pub fn panic_msg(e: Box<dyn std::any::Any + Send>) -> String {
     if let Some(s) = e.downcast_ref::<&str>() {
         (*s).to_owned()
     } else if let Some(s) = e.downcast_ref::<String>() {
@@ -374,6 +374,173 @@ pub fn run(suite: &str, thorough: bool, seed: u64, shard: usize, nshards: usize,
                 };
                 let files = render_project(&proj, style, &mut r);
                 em.case(s, walk_case(&files, suite == "walkpos"));
+            }
+        }
+        // C11: determinism over fresh seeds / insertion orders / threads
+        "determinism" => {
+            let n = share(if thorough { 6000 } else { 150 });
+            for i in 0..n {
+                let s = rng.next();
+                let mut r = Rng::new(s);
+                let cfg = gen::DocCfg { docs: false, ..Default::default() };
+                let mut proj = gen::gen_project(&mut r, &cfg);
+                let mut files = render_project(&proj, if i % 3 == 0 { LayoutStyle::Tight } else { LayoutStyle::Plain }, &mut r);
+                if i % 4 == 1 {
+                    // several imports / declarations on one line, ambiguous imports, duplicate keys
+                    let extra = "package a;\nimport a.Foo; import b.Foo; import c.Unknown; import android.os.IBinder; parcelable Foo; parcelable X; parcelable Y;\ninterface Dup { void f(Foo a, X b, Y c, IBinder d); }\n";
+                    files.push(("extra".to_owned(), extra.to_owned()));
+                    files.push(("dup1".to_owned(), "package a;\ninterface Foo {}\n".to_owned()));
+                    files.push(("dup2".to_owned(), "package a;\nenum Foo { A }\n".to_owned()));
+                    files.push(("dup3".to_owned(), "package a;\nparcelable Foo {}\n".to_owned()));
+                    files.push(("broken".to_owned(), "package a;\ninterface Broken { void f( ; oops\n".to_owned()));
+                }
+                proj.clear();
+                em.case(s, crate::store_ops::determinism_case(&files, &mut r));
+            }
+        }
+        // C12: operation histories; exhaustive short ones over 3 ids x 4 contents, random long ones
+        "history" => {
+            use crate::store_ops::HOp;
+            let dir = std::env::temp_dir().join(format!("aidl-verif-{}-{}", std::process::id(), shard));
+            std::fs::create_dir_all(&dir).unwrap();
+            let contents = [
+                "package p;\ninterface A { void f(in Q q); }\n",
+                "package p;\nimport p.A;\nparcelable Q { A a; }\n",
+                "package p;\nimport p.Q;\nimport p.A;\nenum A { X }\n",
+                "package p;\ninterface Broken {\n",
+            ];
+            let ids = ["i1", "i2", "i3"];
+            // alphabet of single operations
+            let mut alphabet: Vec<HOp> = Vec::new();
+            for id in ids {
+                for c in contents {
+                    alphabet.push(HOp::Add(id.to_owned(), c.to_owned()));
+                }
+                alphabet.push(HOp::Remove(id.to_owned()));
+            }
+            alphabet.push(HOp::Validate);
+            alphabet.push(HOp::AddFile("f_ok.aidl".to_owned(), Some(contents[1].as_bytes().to_vec())));
+            alphabet.push(HOp::AddFile("f_missing.aidl".to_owned(), None));
+            alphabet.push(HOp::AddFile("f_bad.aidl".to_owned(), Some(vec![0x70, 0xff, 0xfe, 0x20])));
+            let a = alphabet.len();
+            let maxlen = if thorough { 4 } else { 3 };
+            let mut idx = 0usize;
+            for len in 1..=maxlen {
+                let total = a.pow(len as u32);
+                // quick: sample the length-3 space
+                let stride = if !thorough && len == 3 { 7 } else if thorough && len == 4 { 5 } else { 1 };
+                let mut code = 0usize;
+                while code < total {
+                    idx += 1;
+                    if mine(idx) {
+                        let mut c = code;
+                        let mut ops = Vec::new();
+                        for _ in 0..len {
+                            ops.push(alphabet[c % a].clone());
+                            c /= a;
+                        }
+                        em.case(code as u64, crate::store_ops::history_case(&ops, &dir));
+                    }
+                    code += stride;
+                }
+            }
+            // random long histories over generated projects
+            let n = share(if thorough { 3000 } else { 60 });
+            for _ in 0..n {
+                let s = rng.next();
+                let mut r = Rng::new(s);
+                let cfg = gen::DocCfg { docs: false, max_members: 3, ..Default::default() };
+                let proj = gen::gen_project(&mut r, &cfg);
+                let files = render_project(&proj, LayoutStyle::Plain, &mut r);
+                let len = r.range(5, 40);
+                let mut ops = Vec::new();
+                for _ in 0..len {
+                    let f = r.pick(&files).clone();
+                    let id = format!("id{}", r.below(4));
+                    ops.push(match r.below(10) {
+                        0..=4 => HOp::Add(id, f.1),
+                        5 | 6 => HOp::Remove(id),
+                        7 => HOp::Validate,
+                        8 => HOp::AddFile(format!("g{}.aidl", r.below(2)), if r.chance(2, 3) { Some(f.1.into_bytes()) } else { None }),
+                        _ => HOp::AddFile("bad.aidl".to_owned(), Some(vec![0xc3, 0x28])),
+                    });
+                }
+                em.case(s, crate::store_ops::history_case(&ops, &dir));
+            }
+            let _ = std::fs::remove_dir_all(&dir);
+        }
+        // C13: single-file perturbations of the rest of the project
+        "perturb" => {
+            let n = share(if thorough { 6000 } else { 200 });
+            for _ in 0..n {
+                let s = rng.next();
+                let mut r = Rng::new(s);
+                let cfg = gen::DocCfg { docs: r.chance(1, 3), ..Default::default() };
+                let proj = gen::gen_project(&mut r, &cfg);
+                let t = r.below(proj.len());
+                let target = proj[t].0.clone();
+                let mut proj2 = proj.clone();
+                let how;
+                match r.below(6) {
+                    0 => {
+                        // add an unrelated file
+                        let d = gen::gen_document(&mut r, &cfg);
+                        proj2.push(("added".to_owned(), d));
+                        how = "add file";
+                    }
+                    1 if proj.len() > 1 => {
+                        let mut k = r.below(proj.len());
+                        if k == t {
+                            k = (k + 1) % proj.len();
+                        }
+                        proj2.remove(k);
+                        how = "remove other file";
+                    }
+                    2 | 3 if proj.len() > 1 => {
+                        // rewrite body / imports / docs of another file keeping package, name and kind
+                        let mut k = r.below(proj.len());
+                        if k == t {
+                            k = (k + 1) % proj.len();
+                        }
+                        let old = &proj[k].1;
+                        let pool = gen::TypePool::default_pool();
+                        let mut nd = old.clone();
+                        nd.item = gen::gen_item(&mut r, &cfg, &pool, old.item.kind, &old.item.name);
+                        nd.imports = (0..r.below(3)).map(|_| gen::gen_import(&mut r, &[])).collect();
+                        proj2[k].1 = nd;
+                        how = "rewrite other file (same package, name, kind)";
+                    }
+                    4 if proj.len() > 1 => {
+                        // negative control: change the kind of another file
+                        let mut k = r.below(proj.len());
+                        if k == t {
+                            k = (k + 1) % proj.len();
+                        }
+                        let old = &proj[k].1;
+                        let pool = gen::TypePool::default_pool();
+                        let nk = match old.item.kind {
+                            doc::ItemKind::Interface => doc::ItemKind::Parcelable,
+                            doc::ItemKind::Parcelable => doc::ItemKind::Enum,
+                            doc::ItemKind::Enum => doc::ItemKind::Interface,
+                        };
+                        let mut nd = old.clone();
+                        nd.item = gen::gen_item(&mut r, &cfg, &pool, nk, &old.item.name);
+                        proj2[k].1 = nd;
+                        how = "change kind of other file (control)";
+                    }
+                    _ => {
+                        // rename another file's id only (ids never influence one another)
+                        for (i, e) in proj2.iter_mut().enumerate() {
+                            if i != t {
+                                e.0 = format!("renamed{}", i);
+                            }
+                        }
+                        how = "rename other ids";
+                    }
+                }
+                let f1 = render_project(&proj, LayoutStyle::Plain, &mut r.clone());
+                let f2 = render_project(&proj2, LayoutStyle::Plain, &mut r.clone());
+                em.case(s, crate::store_ops::perturb_case(&f1, &f2, &target, how));
             }
         }
         _ => {
